@@ -23,6 +23,15 @@ def gen_cases(seed, tier):
                 ops.append((h, "mem", "g:%d:%d:%s" % (rng.randint(0, 3000), rng.randint(1, 999), rng.choice("tr"))))
         cases.append(dict(id="w%d" % i, comp=rng.choice(["zstd:1", "lz4:1", "zstd:3"]), dedup=0,
                           delays=rng.randint(1, 10**6), workers=workers, ops=ops))
+    # slow workers: the producer closes compressed clusters faster than w workers take them, so the queue
+    # reaches the back-pressure limit (2w) and the producer has to be woken up again, for the smallest worker counts
+    for w in ([1, 2, 3] if tier == "quick" else [1, 1, 2, 2, 3, 4, 5]):
+        ops = []
+        for j in range(2 * w + 5):
+            ops.append(("y", "mem", "g:2200000:%d:t" % rng.randint(1, 999)))      # each closes its own compressed cluster
+            if j % 2:
+                ops.append(("n", "mem", "g:%d:%d:r" % (rng.randint(0, 2000), rng.randint(1, 999))))
+        cases.append(dict(id="slow%d_%d" % (w, len(cases)), comp="zstd:1", dedup=0, delays=0, workers=w, slow=60, ops=ops))
     return cases
 
 
@@ -36,7 +45,7 @@ def run(tier, seed, replay=None):
     if not C.proof_layer(res, PID, K.THEORY):
         return res.finish()
     cases = K.parse_replay(replay) if replay else gen_cases(seed, tier)
-    rm = K.run_cases(res, cases, seed, timeout=600 if tier == "quick" else 3000)
+    rm = K.run_cases(res, cases, seed, timeout=150 if tier == "quick" else 3000)
     if rm is None:
         return res.finish()
     R, M = rm
